@@ -843,7 +843,7 @@ static void run_script(const string &script)
 		int saved_errno = 0;
 
 		static const std::set<string> cfg_cmds = {"free", "errfunc", "searchpath", "parse_buf", "parse_fp", "parse_fp_fail", "parse_file", "setint",
-			"setfloat", "setbool", "setstr", "setstr_self", "setlist", "addlist", "setmulti", "osetmulti", "setopt", "setcomment", "addtsec",
+			"setfloat", "setbool", "setstr", "setstr_self", "setlist_self", "setlist", "addlist", "setmulti", "osetmulti", "setopt", "setcomment", "addtsec",
 			"rmsec", "rmnsec", "rmtsec", "getopt", "getnopt", "getsec", "getnsec", "gettsec", "size", "getint", "getfloat",
 			"getbool", "getstr", "getcomment", "title", "setvalidate", "setvalidate2", "printfunc", "filter", "filterk", "dump", "print", "roundtrip",
 			"findfile"};
@@ -1062,6 +1062,15 @@ static void run_script(const string &script)
 					  : cfg_setnbool(cfg, cs(path), (cfg_bool_t)strtol(v.s.c_str(), NULL, 0), idx);
 			else
 				rc = conv ? cfg_setstr(cfg, cs(path), cs(v)) : cfg_setnstr(cfg, cs(path), cs(v), idx);
+			saved_errno = errno;
+			o += ",\"rc\":" + jnum(rc);
+		} else if (c == "setlist_self") {
+			// setlist_self h path idx : replace the list by a single element, its own element <idx> (as handed out by the getter)
+			cfg_t *cfg = hcfg(N(1));
+			Arg path = A(2);
+			apply_errno();
+			const char *cur = cfg_getnstr(cfg, cs(path), (unsigned)N(3));
+			int rc = cfg_setlist(cfg, cs(path), 1, cur);
 			saved_errno = errno;
 			o += ",\"rc\":" + jnum(rc);
 		} else if (c == "setstr_self") {
